@@ -253,7 +253,12 @@ impl<'a, T: Elem + SatisfyTraits<Tr>, M: MemCaps, Tr: ?Sized + TrCaps> Cx<'a, T,
             if it.size_hint() != (n, Some(n)) {
                 self.note(format!("size_hint()={:?} but len()={}", it.size_hint(), n));
             }
-            let item = if st.back { it.next_back() } else { it.next() };
+            let item = match (st.back, st.skip) {
+                (false, 0) => it.next(),
+                (true, 0) => it.next_back(),
+                (false, k) => it.nth(k as usize),
+                (true, k) => it.nth_back(k as usize),
+            };
             match item {
                 None => self.val(Val::None),
                 Some(e) => {
@@ -289,7 +294,12 @@ impl<'a, T: Elem + SatisfyTraits<Tr>, M: MemCaps, Tr: ?Sized + TrCaps> Cx<'a, T,
             if it.size_hint() != (n, Some(n)) {
                 self.note(format!("size_hint()={:?} but len()={}", it.size_hint(), n));
             }
-            let item = if st.back { it.next_back() } else { it.next() };
+            let item = match (st.back, st.skip) {
+                (false, 0) => it.next(),
+                (true, 0) => it.next_back(),
+                (false, k) => it.nth(k as usize),
+                (true, k) => it.nth_back(k as usize),
+            };
             match item {
                 None => self.val(Val::None),
                 Some(t) => {
